@@ -20,6 +20,8 @@ pub struct Config {
     pub blocks_in_transit: usize,
     /// size limit of the pending transaction pool (the binary uses PendingTxs::default() = 64)
     pub pending_limit: usize,
+    /// RFC 44 activation epoch (the binary: 8651 on mainnet, 5711 on testnet, 0 elsewhere)
+    pub mmr_activated_epoch: u64,
 }
 
 impl Default for Config {
@@ -30,6 +32,7 @@ impl Default for Config {
             interval: 4,
             blocks_in_transit: 16,
             pending_limit: 64,
+            mmr_activated_epoch: 0,
         }
     }
 }
@@ -92,6 +95,7 @@ impl Client {
         let mut lc =
             LightClientProtocol::new(storage.clone(), Arc::clone(&peers), consensus.clone());
         lc.set_last_n_blocks(cfg.last_n);
+        lc.set_mmr_activated_epoch(cfg.mmr_activated_epoch);
         lc.set_init_blocks_in_transit_per_peer(cfg.blocks_in_transit);
         let filter = FilterProtocol::new(storage.clone(), Arc::clone(&peers));
         let sync = SyncProtocol::new(storage.clone(), Arc::clone(&peers));
